@@ -10,6 +10,7 @@ namespace ChessVerif
 namespace Search
 
 theorem demo_scoreLaws (K : Keys) : ScoreLaws (demoComp K) NoMen (fun _ => True) (fun _ => 0) where
+  tt_ok := fun _ _ => trivial
   tt_probe := fun _ _ _ _ _ h => by simp [demoComp] at h
   tt_store := fun _ _ _ _ _ _ _ _ _ => trivial
   tt_failHigh := fun _ _ _ _ _ _ => trivial
